@@ -367,6 +367,8 @@ PROPS["C11"] = {
     "units": [
         # real in-process controller, server slow or unwilling to stop
         {"name": "C11InProcess", "pkg": CC, "test": "TestVerifC11InProcess", "kind": "enum", "timeout": 120},
+        # peers that are OS processes (runCommand) and go away while the runner still writes to them
+        {"name": "C11OSPeers", "pkg": CC, "test": "TestVerifC11OSPeers", "kind": "enum", "timeout": 900},
         {"name": "C11Batch", "pkg": CC, "test": "TestVerifC11Batch", "kind": "rapid", "race": {"quick": False, "thorough": True},
          "checks": {"quick": 6000, "thorough": 60000}, "shards": {"quick": 4, "thorough": 16}},
         {"name": "C11NeverAnswers", "pkg": CC, "test": "TestVerifC11NeverAnswers", "kind": "enum", "only_tiers": ["thorough"]},
